@@ -22,6 +22,8 @@ RUN_FILES = ["Model/C09_run.v", "Model/C09_rungen.v"]
 POS_TOL = 1e-6          # pixels: PROJ round-trip error bound granted to the positions
 BIG_CHUNK = 4096
 KEY_THIN = "C09.chunk_invariance.one_pixel_thick_block"
+PAIR_KEYS = ("tag", "src", "dst", "coef", "data_kind")
+U32 = 2.0 ** -24         # unit roundoff of binary32
 
 
 def fhex(v):
@@ -113,6 +115,23 @@ def gen_pairs(ctx):
              ("units_merc_to_longlat", mk_area(crs_of("merc", 100.0, 0.0, r), 101.0, 12.0, 8000.0, 33, 29), mk_area(ll, 101.2, 12.1, 10000.0, 26, 17))]
     for tag, src, dst in units[:ctx.n(3, 4)]:
         pairs.append({"tag": tag, "src": src, "dst": dst, "coef": [r.randint(-40, 40) / 8.0, 1.25, -0.75]})
+    # wide / tall sources: global indices in the thousands (binary32 cannot hold their fraction), data of magnitude <= 1 with O(1) cell
+    # differences so that the derived float32 bound (16 u max|data|) is far below the effect of a weight error
+    def far_target(sp, src, dcol, drow, dk, res, shape):
+        h, w = src["shape"]
+        x0, y0, x1, y1 = src["extent"]
+        px, py = x0 + (dcol + 0.5) * (x1 - x0) / w, y1 - (drow + 0.5) * (y1 - y0) / h
+        lo, la = Transformer.from_crs(PCRS.from_user_input(sp), "EPSG:4326", always_xy=True).transform(px, py)
+        return mk_area(crs_of(dk, lo, la, r), lo, la, res, *shape)
+    big = []
+    sp = crs_of("laea", 10.0, 50.0, r)
+    src = mk_area(sp, 10.0, 50.0, 1000.0, 10, 6000)
+    big.append(("wide_laea_to_stere", src, far_target(sp, src, 5600 + r.randint(0, 200), 4.5, "stere", 700.0, (11, 16))))
+    sp = crs_of("merc", -30.0, 0.0, r)
+    src = mk_area(sp, -30.0, 10.0, 1000.0, 5000, 9)
+    big.append(("tall_merc_to_laea", src, far_target(sp, src, 4.0, 4500 + r.randint(0, 300), "laea", 600.0, (16, 11))))
+    for tag, src, dst in big:
+        pairs.append({"tag": tag, "src": src, "dst": dst, "coef": [float(r.randint(1, 99)), 0.0, 0.0], "data_kind": "rand01"})
     n = ctx.n(9, 60)
     thin = [(11, 17), (16, 33), (21, 9), (17, 26), (6, 17), (33, 11), (31, 33), (26, 21)]
     for k in range(n):
@@ -142,12 +161,16 @@ RUNS = [
 ]
 
 
-def data_of(pair, kind="affine"):
+def data_of(pair, kind=None):
+    kind = kind or pair.get("data_kind", "affine")
     h, w = pair["src"]["shape"]
     c0, c1, c2 = pair["coef"]
     l, p = np.mgrid[0:h, 0:w]
     if kind == "affine":
         return c0 + c1 * l + c2 * p
+    if kind == "rand01":        # values k/1024 in [0,1): exact in binary32, neighbouring pixels differ by O(1), magnitude <= 1
+        rs = np.random.RandomState(abs(hash((h, w, c0, c1, c2))) % (2 ** 31))
+        return rs.randint(0, 1024, size=(h, w)) / 1024.0
     rs = np.random.RandomState(abs(hash((h, w, c0, c1, c2))) % (2 ** 31))
     return rs.randint(-512, 512, size=(h, w)) / 4.0
 
@@ -235,9 +258,18 @@ def expected_run(run, pair, L, P, D):
         exp, tol = D[li, pi], 0.0
     else:
         exp = std_bilinear(D, np.clip(L, 0, D.shape[0] - 1), np.clip(P, 0, D.shape[1] - 1))
-        tol = 1e-9 * scale + (abs(c1) + abs(c2)) * 2 * POS_TOL
+        # position slack: the value moves by at most (cell difference along l + along p) per pixel of position error
+        if pair.get("data_kind", "affine") == "affine":
+            grad = abs(c1) + abs(c2)
+        else:
+            grad = float(np.max(np.abs(np.diff(D, axis=0)))) + float(np.max(np.abs(np.diff(D, axis=1)))) if min(D.shape) > 1 else 2 * scale
+        tol = 1e-9 * scale + grad * 2 * POS_TOL
         if run["dtype"] == "float32":
-            tol += 4e-6 * scale
+            # derived binary32 bound, M = max|data|, u = 2^-24: the two weights are rounded once (<= u/2 each, moving the value
+            # by <= u * max cell difference <= 2uM), each of the four terms (1-w)(1-w')d takes 2 subtractions-or-none, 2 products
+            # (<= 4u relative), the three additions add <= 3u of the partial sums (<= M), the result is rounded once more;
+            # weights sum to 1, so the total is below (2 + 4 + 3 + 1) u M; 16 u M leaves a factor for second-order terms
+            tol += 16 * U32 * scale
     return exp, tol
 
 
@@ -258,7 +290,7 @@ def check_pair(ctx, pair, obs_by_chunk, cases_out=None):
     ctx.count("target_pixels_outside", int(outside.sum()))
     ctx.count("target_pixels_ambiguous_border", int(amb.sum()))
     D = data_of(pair)
-    rp = {"pair": {k: pair[k] for k in ("tag", "src", "dst", "coef")}}
+    rp = {"pair": {k: pair[k] for k in PAIR_KEYS if k in pair}}
     ref = obs_by_chunk.get(BIG_CHUNK)
     if ref is None or "error" in ref:
         ctx.add_failure("C09.resampler_raises", "single-chunk resampling of %s raised %s" % (pair["tag"], ref), dict(rp, chunk=BIG_CHUNK))
@@ -342,7 +374,7 @@ def check_pair(ctx, pair, obs_by_chunk, cases_out=None):
                     pair["tag"], run, r1["shape"], r1["dtype"], chunk, r0["shape"], r0["dtype"]), dict(rp, chunk=chunk, run=run))
                 continue
             scale = max(1.0, float(np.nanmax(np.abs(a))) if np.isfinite(a).any() else 1.0)
-            tol = (1e-10 if run["dtype"] == "float64" else 4e-6) * scale
+            tol = (1e-10 if run["dtype"] == "float64" else 32 * U32) * scale      # float32: each side within 16 u M of the exact value
             na, nb = np.isnan(a), np.isnan(bb)
             diff = (na != nb) | (~na & ~nb & (np.abs(a - bb) > tol))
             if diff.ndim == 3:
@@ -396,7 +428,7 @@ def check_pair(ctx, pair, obs_by_chunk, cases_out=None):
 
 def check_legacy(ctx, pair, o):
     """gradient_resampler (the Cython nn / bil kernels on the whole, uncropped source) against the same oracle"""
-    rp = {"pair": {k: pair[k] for k in ("tag", "src", "dst", "coef")}, "legacy": True}
+    rp = {"pair": {k: pair[k] for k in PAIR_KEYS if k in pair}, "legacy": True}
     if "error" in o:
         ctx.add_failure("C09.legacy.raises", "%s: gradient_resampler raised %s" % (pair["tag"], o), rp)
         return
@@ -458,7 +490,7 @@ def prefix_blocks(rows, cols):
 def check_irregular(ctx, pair, decomps, ob):
     """resample_blocks with explicit, irregular target (and source) decompositions against the single-block result"""
     n0 = len(ctx.failures)
-    rp = {"pair": {k: pair[k] for k in ("tag", "src", "dst", "coef")}}
+    rp = {"pair": {k: pair[k] for k in PAIR_KEYS if k in pair}}
     if "error" in ob or "error" in ob["decomps"][0]:
         ctx.add_failure("C09.resampler_raises", "%s: single-block resample_blocks raised %s" % (pair["tag"], ob.get("error") or ob["decomps"][0]), dict(rp, irregular=decomps[0]))
         return 1
@@ -545,7 +577,7 @@ def gen_stacked(ctx, pair):
 
 
 def check_stacked(ctx, pair, c, o, legacy, lines):
-    rp = {"pair": {k: pair[k] for k in ("tag", "src", "dst", "coef")}, "stacked": {k: c[k] for k in ("crops", "rows", "cols", "overlap")}}
+    rp = {"pair": {k: pair[k] for k in PAIR_KEYS if k in pair}, "stacked": {k: c[k] for k in ("crops", "rows", "cols", "overlap")}}
     ctx.count("legacy_stacked_overlap" if c["overlap"] else "legacy_stacked_partition")
     if "error" in o:
         ctx.add_failure("C09.legacy.stacked", "%s: parallel_gradient_search raised %s: %s" % (pair["tag"], o["error"], o.get("msg")), rp)
@@ -582,6 +614,63 @@ def check_stacked(ctx, pair, c, o, legacy, lines):
                 r0, r1, c0, c1, flist(v[r0:r1, c0:c1].ravel())))
 
 
+def check_joint(ctx, pair, decomps, ob):
+    """purity of the lazy results: evaluated together in ONE dask computation, or combined in one dask expression, every
+    decomposition must give what it gives on its own (resample_blocks' graph keys must tell the decompositions apart)"""
+    KEY = "C09.chunk_invariance.joint_compute"
+    rp = {"pair": {k: pair[k] for k in PAIR_KEYS if k in pair}, "joint": decomps}
+    H, W = pair["dst"]["shape"]
+    ds = ob["decomps"]
+    ok = [k for k, o in enumerate(ds) if "error" not in o]
+    ctx.count("joint_computations")
+    for n in ("idx", "nn", "bil"):
+        seen = {}
+        for k in ok:
+            nm = ds[k]["names"][n]
+            if nm in seen and (decomps[seen[nm]]["rows"], decomps[seen[nm]]["cols"]) != (decomps[k]["rows"], decomps[k]["cols"]):
+                ctx.add_failure(KEY, "%s: the %s results of resample_blocks for chunk_size=(%s, %s) and (%s, %s) carry the same dask name %s: "
+                                     "their graph keys collide as soon as both take part in one computation"
+                                % (pair["tag"], n, tuple(decomps[seen[nm]]["rows"]), tuple(decomps[seen[nm]]["cols"]),
+                                   tuple(decomps[k]["rows"]), tuple(decomps[k]["cols"]), nm), rp)
+                return
+            seen.setdefault(nm, k)
+    j = ob.get("joint", {})
+    if "error" in j:
+        ctx.add_failure(KEY, "%s: dask.compute of the %d decompositions' lazy results together raises %s: %s (each alone computes)"
+                        % (pair["tag"], len(ok), j["error"], j.get("msg")), rp)
+        return
+    for k in ok:
+        g = j[str(k)]
+        for n in ("idx", "nn", "bil"):
+            a = np.array(ds[k][n], dtype=np.float64).ravel()
+            b = np.array(g[n], dtype=np.float64).ravel()
+            if a.shape != b.shape or not np.array_equal(a.view(np.int64), b.view(np.int64)):
+                nd = int((a.view(np.int64) != b.view(np.int64)).sum()) if a.shape == b.shape else -1
+                ctx.add_failure(KEY, "%s: %s of chunk_size=(%s, %s) computed together with the other decompositions differs from the same lazy array "
+                                     "computed alone (%s elements differ, shapes %s)" % (pair["tag"], n, tuple(decomps[k]["rows"]), tuple(decomps[k]["cols"]),
+                                                                                       nd if nd >= 0 else "all", g["shapes"]), rp)
+                return
+    for m in ob.get("mixed", []):
+        k, q = m["k"], m["j"]
+        if "error" in m:
+            ctx.add_failure(KEY, "%s: (bil[%s,%s] - bil[%s,%s].rechunk(...)).compute() raises %s: %s" % (
+                pair["tag"], tuple(decomps[k]["rows"]), tuple(decomps[k]["cols"]), tuple(decomps[q]["rows"]), tuple(decomps[q]["cols"]), m["error"], m.get("msg")), rp)
+            return
+        a, b = np.array(ds[k]["bil"]), np.array(ds[q]["bil"])
+        want = a - b
+        got = np.array(m["diff"])
+        sc = max(1.0, float(np.nanmax(np.abs(a))) if np.isfinite(a).any() else 1.0)
+        bad = got.shape != want.shape or ((np.isnan(got) != np.isnan(want)) | (~np.isnan(got) & ~np.isnan(want) & (np.abs(got - want) > 1e-12 * sc))).any()
+        sa, sb = float(np.nansum(np.array(ds[k]["nn"]))), float(np.nansum(np.array(ds[q]["nn"])))
+        bad_sum = not abs(m["sumdiff"] - (sa - sb)) <= 1e-9 * max(1.0, abs(sa))
+        if bad or bad_sum:
+            ctx.add_failure(KEY, "%s: one dask expression over the decompositions (%s, %s) and (%s, %s): %s" % (
+                pair["tag"], tuple(decomps[k]["rows"]), tuple(decomps[k]["cols"]), tuple(decomps[q]["rows"]), tuple(decomps[q]["cols"]),
+                ("nansum(nn_a) - nansum(nn_b) = %r but the two sums computed separately differ by %r" % (m["sumdiff"], sa - sb)) if bad_sum else
+                "bil_a - bil_b.rechunk(bil_a.chunks) differs from the difference of the separately computed arrays"), rp)
+            return
+
+
 def RUNS_differs_without_src_chunks(ref, ob, k):
     """True iff the same run WITHOUT source chunking (run 1: bilinear float64) already differs between the chunkings"""
     a, b = ref["runs"][1], ob["runs"][1]
@@ -596,6 +685,8 @@ def chunk_sizes_for(ctx, pair):
     cs = [BIG_CHUNK, 16, 5]
     if ctx.thorough:
         cs += [7, 3, 10]
+    elif pair["tag"].startswith(("wide_", "tall_")):
+        cs = [BIG_CHUNK, 5]
     elif pair["tag"] == "geos_disk_to_stere":
         cs = [BIG_CHUNK, 3]         # small blocks along the limb of the disk (see key crop_at_geos_limb)
     return cs
@@ -810,7 +901,9 @@ def run(ctx):
                 "remainder block for chunk size 5 or 16; each pair is resampled in one subprocess per PYTROLL_CHUNK_SIZE (4096 = single chunk, 16, 5; "
                 "thorough adds 7, 3, 10) for nn/bilinear x float64/float32 x 2-D/3-D x chunked source data; pairs with different axis units (degrees <-> metres, "
                 "zero slicer buffer) with target sizes k*chunk+1; resample_blocks called directly with explicit irregular tuple-of-tuples target decompositions "
-                "(non-last chunks differ from the first, one-pixel-thick inner blocks) and irregular source chunkings, against the single block; the legacy "
+                "(non-last chunks differ from the first, one-pixel-thick inner blocks) and irregular source chunkings, against the single block, the lazy results of "
+                "all decompositions also evaluated in ONE dask.compute and in expressions mixing two decompositions; wide/tall sources (indices in the "
+                "thousands) with data of magnitude <= 1 for the float32 weights (bound 16 u max|data|); the legacy "
                 "parallel_gradient_search over source chunks that overlap by one pixel / partition the source, target cut 2x2; plus synthetic direct calls of the Cython "
                 "kernels (affine, curvilinear, zero-gradient, inconsistent gradients, inf/NaN/huge targets, 1xN sources) and of the block interpolators "
                 "(ties, integers, edges, NaN, 1xN blocks). Non-trivial = the pair has target pixels both inside and outside the source hull of centres "
@@ -862,6 +955,8 @@ def run(ctx):
         check_legacy(ctx, p, results[BIG_CHUNK]["legacy"][k])
         if k in decomps:
             check_irregular(ctx, p, decomps[k], results[BIG_CHUNK]["blocks"][irr.index(k)])
+            if "error" not in results[BIG_CHUNK]["blocks"][irr.index(k)]:
+                check_joint(ctx, p, decomps[k], results[BIG_CHUNK]["blocks"][irr.index(k)])
             for dc in decomps[k][1:]:
                 ctx.case(("irregular", p["tag"], repr(dc)), nontrivial=True,
                          sample={"irregular_decomposition": p["tag"], "target_rows": dc["rows"], "target_cols": dc["cols"], "source_chunks": dc.get("src_chunks")})
@@ -1036,6 +1131,12 @@ def replay(ctx, data):
     elif case.get("oracle") == "direct_src":
         o = ctx.impl("c09", {"direct": [case["case"]]})["direct"][0]
         source_vs_binary(ctx, case["case"], o)
+    elif case.get("joint"):
+        p = case["pair"]
+        dcs = case["joint"]
+        o = ctx.impl("c09", {"blocks": [{"src": p["src"], "dst": p["dst"], "data": [float(v) for v in data_of(p).ravel()], "decomps": dcs}]})["blocks"][0]
+        if "error" not in o:
+            check_joint(ctx, p, dcs, o)
     elif case.get("stacked"):
         p = case["pair"]
         c = dict(case["stacked"], src=p["src"], dst=p["dst"], data=[float(v) for v in data_of(p).ravel()])
